@@ -166,6 +166,7 @@ func (mt *MoreThuente) Iterate(f, g float64) (Operation, float64, error) {
 		mt.stage = 2
 	}
 
+	prevStep := mt.step
 	if mt.stage == 1 && f <= mt.fx && f > fTest {
 		// Lower function value but the decrease is not sufficient .
 
@@ -218,6 +219,11 @@ func (mt *MoreThuente) Iterate(f, g float64) (Operation, float64, error) {
 		}
 	}
 
+	if math.Abs(mt.step-prevStep) <= 1e-15*prevStep {
+		// The new trial step is the previous one to within a few units in
+		// the last place: rounding errors prevent further progress.
+		return NoOperation, mt.step, ErrLinesearcherFailure
+	}
 	return FuncEvaluation | GradEvaluation, mt.step, nil
 }
 
